@@ -85,6 +85,7 @@ static long in_cs_since[VRT_MAXT];	/* begin time of the outermost open section o
 static int depth[VRT_MAXT];
 static int nworkers = 2, nops = 40, use_admin, park, rtpct = 30, chainpct = 25, maxchain = 2, prebarrier, oneshot, nobarrier;
 static int nworkers_done;
+static volatile int w_started;
 
 /* heap objects of the library, named at allocation */
 static struct call_rcu_data *crd_obj[MAXCRD];
@@ -472,7 +473,13 @@ static void *worker(void *arg)
  *      dec / empty-check / FUTEX_WAIT window);
  *   2: the call_rcu() runs before the helper's first step (force T2 inside T1's enqueue / wake window);
  *   3: as 2, followed by rcu_barrier() at once (force T2 inside the barrier's dec / count test / FUTEX_WAIT window);
- *   4: as 1 with a re-enqueueing callback.
+ *   4: as 1 with a re-enqueueing callback;
+ *   5: T1's helper is the per-CPU helper of CPU 0 (T2); while T1 is inside call_rcu() (held there by --hold-at N
+ *      --hold-tid 1 --hold-len M: descheduled unless nothing else can run) the main thread performs the documented
+ *      teardown of that helper: set_cpu_call_rcu_data(0, NULL); synchronize_rcu(); call_rcu_data_free(H).  With the
+ *      read-side section call_rcu() holds across lookup and enqueue the grace period waits for T1, T1 enqueues first
+ *      and the leftover is handed over; without it T1 enqueues into the freed (poisoned) structure = `uaf`;
+ *   6: as 5 with free_all_cpu_call_rcu_data() as the teardown.
  * A lost wake-up leaves the final rcu_barrier() (or this one) blocked for ever = DEADLOCK of the runtime. */
 static void *oneshot_thread(void *arg)
 {
@@ -485,6 +492,9 @@ static void *oneshot_thread(void *arg)
 	vrt_log("RET register");
 	if (oneshot == 1 || oneshot == 4)
 		vrt_sleep(1000000);
+	if (oneshot >= 5)
+		set_my_cpu(0);
+	w_started = 1;
 	do_call_rcu(oneshot == 4 ? 1 : 0);
 	if (oneshot == 3)
 		do_barrier();
@@ -493,6 +503,15 @@ static void *oneshot_thread(void *arg)
 	vrt_log("RET unregister");
 	nworkers_done++;
 	return NULL;
+}
+
+/* oneshot 5/6: an access through a pointer read from the poisoned (freed) call_rcu_data faults */
+static void segv_uaf(int sig)
+{
+	(void)sig;
+	vrt_fail("uaf", "call_rcu() followed a pointer read from a freed call_rcu_data (SIGSEGV on poisoned memory)");
+	fflush(NULL);
+	_exit(3);
 }
 
 /* per-CPU helper administration: one thread creates/destroys, a second one only creates */
@@ -600,8 +619,27 @@ int main(int argc, char **argv)
 		nworkers = 1;
 		use_admin = 0;
 		wt[0] = vrt_spawn("worker", oneshot_thread, NULL);
-		vrt_log("CALL get_default");
-		vrt_log("RET get_default crd%d", crd_id(get_default_call_rcu_data()));
+		if (oneshot >= 5) {
+			struct call_rcu_data *h;
+			signal(SIGSEGV, segv_uaf);
+			h = do_create(0, 0);
+			do_set_cpu(0, h);
+			/* T1 runs its call_rcu() now (polling threads run only when nobody else can); it is held
+			 * somewhere inside by --hold-at, which is when this thread goes on */
+			vrt_log("CALL wait_worker");
+			while (!w_started)
+				(void) poll(NULL, 0, 1);
+			vrt_log("RET wait_worker");
+			if (oneshot == 5) {
+				do_set_cpu(0, NULL);
+				do_sync();
+				do_free(h);
+			} else
+				do_free_all();
+		} else {
+			vrt_log("CALL get_default");
+			vrt_log("RET get_default crd%d", crd_id(get_default_call_rcu_data()));
+		}
 	}
 	for (i = 0; i < nworkers && !oneshot; i++)
 		wt[i] = vrt_spawn("worker", worker, (void *)(long)(i + 1));
